@@ -103,6 +103,8 @@ static void accumulate(Agg &a, const Outcome &o)
         a.add("F_setvar", e.f_setvar);
         a.add("lock_calls", e.lock_calls);
         a.add("lockset_switches", e.lockset_switches);
+        a.add("thread_switches", e.thread_switches);
+        a.add("P_thread_blocked_on_mutex", e.blocked_on_mutex);
         a.add("lines", m.lines);
         a.add("blank_lines", m.blank_lines);
         a.add("lines_ok", m.lines_ok);
@@ -135,6 +137,7 @@ static void accumulate(Agg &a, const Outcome &o)
         a.add("P_args_at_capacity_minus_1", m.args_at_cap_m1);
         a.add("P_args_at_capacity", m.args_at_cap);
         a.add("P_number_over_20_digits", m.long_numbers);
+        a.add("P_event_ring_wrapped_3_laps", m.events_accepted >= 3 * (uint64_t)engine_qcap());
         a.add("P_ambiguous_abbreviation_then_eq", m.ambiguous_eq);
         for (int t = 1; t <= 20; t++) {
                 char k[32];
